@@ -2,7 +2,7 @@
    Only the property theorems, each closed by [exact] and followed by Print Assumptions. *)
 From Coq Require Import List ZArith.
 From MirV Require Import C08.CLayout C08.SysVLayout C08.CClassify C08.SysVClassify C08.StepProofs
-  C08.LayoutProofs C08.ClassifyProofs C08.DisjointProofs C08.TotalProofs.
+  C08.LayoutProofs C08.ClassifyProofs C08.DisjointProofs C08.TotalProofs C08.SpanClassify.
 Import ListNotations.
 Local Open Scope Z_scope.
 
@@ -181,3 +181,31 @@ Theorem bf_sign_enum_eq_sysv_refuted : exists lo hi w, 0 < w /\ lo <= 0 <= hi /\
   c2m_bf_signed false (TEnum lo hi) w <> sv_bf_signed (TEnum lo hi) w.
 Proof. exact bf_sign_refuted_lemma. Qed.
 Print Assumptions bf_sign_enum_eq_sysv_refuted.
+
+(* ------------------------------------------------------------------ gcc's reading of the psABI for
+   bit-fields that extend over an eightbyte boundary (only unnamed ones in under-aligned member
+   aggregates can): [sysv_classify_g] gives INTEGER to every eightbyte such a bit-field touches. *)
+
+(* without such a bit-field ([no_straddle], executable) it is the specification used above ... *)
+Theorem sysv_classify_g_eq : forall t, no_straddle t = true -> sysv_classify_g t = sysv_classify t.
+Proof. exact sysv_classify_g_eq_lemma. Qed.
+Print Assumptions sysv_classify_g_eq.
+
+(* ... so c2mir classifies as gcc does on every well-formed struct/union free of them *)
+Theorem classify_eq_gcc_partial : forall t,
+  wf_ty t = true -> is_agg t = true -> no_straddle t = true ->
+  option_map (map tr) (classify_arg t) = option_map (map pad_int) (sysv_classify_g t).
+Proof. exact classify_eq_gcc_partial_lemma. Qed.
+Print Assumptions classify_eq_gcc_partial.
+
+(* with one, the tree as audited deviates (fixes/C08-9.patch):
+   struct { int i; struct { char c; long : 40; } s; float f; } is INTEGER,INTEGER for gcc and
+   INTEGER,SSE for c2mir - and no padding eightbyte is involved *)
+Theorem classify_eq_gcc_refuted : exists t,
+  wf_ty t = true /\ is_agg t = true /\ no_pad t = true /\
+  option_map (map tr) (classify_arg t) <> option_map (map pad_int) (sysv_classify_g t).
+Proof.
+  exists straddle_witness. destruct classify_gcc_refuted_lemma as (H1 & H2 & H3 & _ & H5 & H6).
+  repeat (split; [assumption|]). rewrite H5, H6. discriminate.
+Qed.
+Print Assumptions classify_eq_gcc_refuted.
